@@ -198,9 +198,10 @@ func (ctrler *GovCtrler) ValidateTrx(ctx *ctrlertypes.TrxContext) xerrors.XError
 				if err := json.Unmarshal([]byte(hotfixOption(string(option))), checkGovParams); err != nil {
 					return xerrors.ErrInvalidTrxPayloadParams.Wrap(err)
 				}
-				// a negative count, period or ratio is never meaningful (and breaks the code that uses it).
-				if name := checkGovParams.NegativeField(); name != "" {
-					return xerrors.ErrInvalidTrxPayloadParams.Wrapf("negative %v", name)
+				// a negative count, period or ratio, or a ratio above 100%, is never meaningful
+				// (and breaks the code that uses it).
+				if name := checkGovParams.OutOfRangeField(); name != "" {
+					return xerrors.ErrInvalidTrxPayloadParams.Wrapf("%v is out of range", name)
 				}
 			}
 		}
